@@ -142,7 +142,15 @@ func mergeStates(d *Decls, states []*State) *State {
 	}
 	extra := make([][]string, len(live))
 	for i, s := range live {
-		extra[i] = append([]string(nil), s.pc[n:]...)
+		for _, c := range s.pc[n:] {
+			if hoistable(c) {
+				// frame and closure facts only constrain heap versions created on this branch (and
+				// hold of any real heap): they stay outside the disjunction, within reach of instantiation
+				res.pc = append(res.pc, c)
+				continue
+			}
+			extra[i] = append(extra[i], c)
+		}
 		if len(s.guards) > 0 {
 			panic(unsupported("merge with active guards"))
 		}
